@@ -1,6 +1,8 @@
 package main
 
 import (
+	"fmt"
+	"go/ast"
 	"sort"
 	"strings"
 )
@@ -104,4 +106,68 @@ func factsRaftGlue() {
 		known("add_node_joins_existing_log", "bool", b(an == "{ this.meta.NodeIds = append(this.meta.NodeIds, nodeId) if nodeId == this.raftTransport.NodeId() { this.loadRaft(nil) } }"),
 			"addNode: own id -> loadRaft(nil); body: "+an)
 	}
+}
+
+// C05: the bytes handed to raft.Propose are a fresh slice every time (raft keeps the slice it is given: the entry in its
+// unstable log, the append message and the durable write all read it later; a reused buffer would let a later proposal
+// rewrite an earlier entry between the leader's send and its durable write).
+func init() { extraExtractors = append(extraExtractors, factsProposalBytes) }
+
+func factsProposalBytes() {
+	const name, typ = "proposal_bytes_fresh", "bool"
+	n := 0
+	why := ""
+	for _, rel := range []string{"storage/partition.go", "storage/dataset_manager.go", "storage/raft/shared_group.go"} {
+		f := parse(rel)
+		if f == nil {
+			unrec(name, typ, rel+" not found")
+			return
+		}
+		for _, d := range f.Decls {
+			fd, ok := d.(*ast.FuncDecl)
+			if !ok || fd.Body == nil {
+				continue
+			}
+			for _, c := range calls(fd.Body) {
+				sel, ok := c.Fun.(*ast.SelectorExpr)
+				if !ok || sel.Sel.Name != "Propose" || len(c.Args) != 2 {
+					continue
+				}
+				n++
+				arg, ok := c.Args[1].(*ast.Ident)
+				if !ok {
+					why = fd.Name.Name + ": Propose is not given a local variable"
+					continue
+				}
+				fresh := false
+				ast.Inspect(fd.Body, func(x ast.Node) bool {
+					as, ok := x.(*ast.AssignStmt)
+					if !ok || len(as.Lhs) == 0 || len(as.Rhs) != 1 {
+						return true
+					}
+					if id, ok := as.Lhs[0].(*ast.Ident); ok && id.Name == arg.Name {
+						if rc, ok := as.Rhs[0].(*ast.CallExpr); ok {
+							cn := callName(rc)
+							fresh = cn == "proto.Marshal" || strings.HasSuffix(cn, ".Marshal")
+						} else {
+							fresh = false
+						}
+					}
+					return true
+				})
+				if !fresh {
+					why = fd.Name.Name + ": the bytes given to Propose do not come straight from Marshal"
+				}
+			}
+		}
+	}
+	if n == 0 {
+		unrec(name, typ, "no Propose call found")
+		return
+	}
+	if why != "" {
+		known(name, typ, "false", why)
+		return
+	}
+	known(name, typ, "true", fmt.Sprintf("%d Propose calls, each given the result of a Marshal call of its own", n))
 }
